@@ -21,12 +21,30 @@ ANCHORS = ['pycaption.geometry:Size.as_percentage_of', 'pycaption.geometry:Point
 REQUIRE = {'writes_DFXPWriter': 100, 'writes_SAMIWriter': 50, 'writes_WebVTTWriter': 100,
            'refusals_expected_and_seen': 50, 'values_compared': 1000, 'unit_px': 50, 'unit_em': 50,
            'unit_pt': 50, 'unit_c': 50, 'fit_extent_added': 30, 'fit_extent_clamped': 30,
-           'fit_extent_unchanged': 30, 'fit_clamped_on_both_axes': 5, 'origin_on_safe_area_edge': 10}
+           'fit_extent_unchanged': 30, 'fit_clamped_on_both_axes': 5, 'origin_on_safe_area_edge': 10,
+           'percentages_just_below_a_whole_number': 20}
 EXHAUSTIVE = {'quick': False, 'thorough': False}
 
 VALUES = [0, 0.25, 1, 7, 13.5, 100, 333, 640]
 UNITS = ['px', 'em', 'pt', 'c', '%']
-VIDEOS = [(640, 360), (1920, 1080), (854, 480), (640, None), (None, 360), (None, None)]
+VIDEOS = [(640, 360), (1920, 1080), (854, 480), (854, 486), (1366, 768), (640, None), (None, 360), (None, None)]
+
+
+def _just_below_whole():
+    """(dimension, px) pairs whose exact percentage lies in [n - 0.005, n) for a whole n: the printer must
+    round them UP to n."""
+    from fractions import Fraction
+    out = {}
+    for dim in (640, 360, 1920, 1080, 854, 480, 486, 1366, 768):
+        for px in range(1, dim):
+            pct = Fraction(px * 100, dim)
+            n = int(pct) + 1
+            if Fraction(n) - Fraction(5, 1000) <= pct < n:
+                out.setdefault(dim, []).append(px)
+    return out
+
+
+JUST_BELOW = _just_below_whole()
 
 
 def rand_size(rng, unit=None, small=False):
@@ -79,10 +97,16 @@ def gen_edge_layout(rng):
 def cases(ctx):
     rng = ctx.rng('c13')
     writers = ['DFXPWriter', 'DFXPWriter', 'WebVTTWriter', 'WebVTTWriter', 'SAMIWriter']
-    for i in range(ctx.budget(4000, 250000)):
+    for i in range(ctx.budget(12000, 400000)):
         writer = writers[i % len(writers)]
         lay = gen_edge_layout(rng) if rng.random() < 0.3 else gen_layout(rng)
         vw, vh = rng.choice(VIDEOS)
+        if rng.random() < 0.25 and lay.get('origin') and (vw in JUST_BELOW or vh in JUST_BELOW):
+            lay['origin'] = [[float(rng.choice(JUST_BELOW[vw])) if vw in JUST_BELOW else 7.0, 'px'],
+                             [float(rng.choice(JUST_BELOW[vh])) if vh in JUST_BELOW else 7.0, 'px']]
+            if lay.get('extent'):
+                lay['extent'] = [[1.0, 'px'], [1.0, 'px']]
+            lay['padding'] = None
         level = rng.choice(['caption', 'caption', 'span', 'lang', 'set'] if writer == 'DFXPWriter' else ['caption', 'caption', 'span', 'lang'])
         if writer == 'SAMIWriter':
             level = rng.choice(['lang', 'set'])
@@ -169,6 +193,10 @@ def check(case, ctx):
         for s in case['layout'].get(key) or []:
             if s is not None and s[1] != '%':
                 ctx.count('unit_' + s[1])
+    o = case['layout'].get('origin')
+    if o and o[0][1] == 'px' and o[1][1] == 'px' and (
+            int(o[0][0]) in JUST_BELOW.get(case['vw'], ()) or int(o[1][0]) in JUST_BELOW.get(case['vh'], ())):
+        ctx.count('percentages_just_below_a_whole_number')
     cs = build_set(case)
     opts = {'relativize': case['relativize'], 'fit_to_screen': case['fit'], 'video_width': case['vw'],
             'video_height': case['vh']}
